@@ -8,7 +8,7 @@ from hypothesis import strategies as st
 from vlib import gen_values as gv
 from vlib.compare import bisimilar
 from vlib.runner import Arm, Eval, Failure
-from vlib.util import exc_key, exc_msg, strings_in, objects_in, have_c
+from vlib.util import exc_key, exc_msg, strings_in, objects_in, have_c, has_foldable_more_indented_line
 
 PROPERTY = "C02"
 LEVEL = "exploration"
@@ -113,11 +113,7 @@ def has_subminute_tz(obj):
 def c_folded_more_indented(obj, opts):
     if opts.get("default_style") != ">":
         return False
-    for s in strings_in(obj):
-        for l in re.split("\r\n|[\r\n\x85\u2028\u2029]", s):
-            if l.startswith(" ") and re.search(r"\S \S", l):
-                return True
-    return False
+    return any(has_foldable_more_indented_line(s) for s in strings_in(obj))
 
 
 def sorted_effective(opts):
